@@ -224,6 +224,24 @@ def run(ctx: Ctx) -> int:
         ok = bool(none_test) and ast.unparse(lps[0].iter) == "parser.required_args"
     ctx.oblige("C06.d", ok, cr, "check_required iterates all of parser.required_args, rejects missing and None values, and recurses into the selected subcommand" if ok else "check_required lost part of its coverage (iteration / None test / subcommand recursion)", fn=cr, construct="check_required coverage")
 
+    # keys are removed from the configuration being parsed only after their value was consumed
+    aa = ctx.func("_typehints:ActionTypeHint.apply_appends")
+    ga = ctx.cfg(aa)
+    pops = [c for c in calls_in(aa) if call_leaf(c) in ("pop", "__delitem__") and root_name(c.func) == "cfg"] + [s_ for s_ in walk_local(aa) if isinstance(s_, ast.Delete)]
+    stores = [s_ for s_ in walk_local(aa) if isinstance(s_, ast.Assign) and isinstance(s_.targets[0], ast.Subscript) and root_name(s_.targets[0].value) == "cfg"]
+    loops_a = [n_ for n_ in walk_local(aa) if isinstance(n_, ast.For)]
+    ctx.need(pops and stores and loops_a, "apply_appends: store of the appended value and removal of the 'key+' entry")
+    starts_a = [t for h in ga.node_ids_of(loops_a[0]) for t, lab in ga.nodes[h].succ if lab == "loop"]
+    ok = ga.must_pass(ga.cn(stores), starts_a, ga.cn(pops), exclude_labels=NX)
+    ctx.oblige("C06.a", ok, pops[0], "a 'key+' entry is removed only after its value was appended to 'key'" if ok else "a 'key+' entry can be removed from the configuration without having been applied: unknown or non-list keys ending in '+' vanish before validation sees them", fn=aa)
+    # check_required recursion into the selected subcommand depends only on the selection
+    rec_calls = [c for c in calls_in(cr) if isinstance(c.func, ast.Name) and c.func.id == "check_required"]
+    if rec_calls:
+        gch = guard_chain(rec_calls[0])
+        names = {n_.id for t, _ in gch for n_ in ast.walk(t) if isinstance(n_, ast.Name)}
+        ok = len(gch) == 1 and names <= {"subcommand", "subparser"}
+        ctx.oblige("C06.d", ok, rec_calls[0], "required arguments of the selected subcommand are checked whenever a subcommand is selected" if ok else f"the check of the selected subcommand's required arguments is additionally guarded by {sorted(names - {'subcommand', 'subparser'})}: a missing or null section passes", fn=cr, construct="subcommand required recursion guard")
+
     # ---------------- C06.e ---------------------------------------------------
     act = ctx.func("_typehints:adapt_class_type")
     g = ctx.cfg(act)
